@@ -323,7 +323,7 @@ func Load(ctx context.Context, wd string, env []string, tags string, patterns []
 					ec.add(notePositionAll(fset.Position(fn.Pos()), errs)...)
 					continue
 				}
-				_, errs = solve(fset, out.out, ins, set)
+				calls, errs := solve(fset, out.out, ins, set)
 				if len(errs) > 0 {
 					ec.add(mapErrors(errs, func(e error) error {
 						if w, ok := e.(*wireErr); ok {
@@ -331,6 +331,10 @@ func Load(ctx context.Context, wd string, env []string, tags string, patterns []
 						}
 						return notePosition(fset.Position(fn.Pos()), fmt.Errorf("inject %s: %v", fn.Name.Name, e))
 					})...)
+					continue
+				}
+				if errs := verifyCalls(fset, fn.Pos(), fn.Name.Name, pkg.PkgPath, calls, out); len(errs) > 0 {
+					ec.add(errs...)
 					continue
 				}
 				info.Injectors = append(info.Injectors, &Injector{
@@ -395,6 +399,33 @@ type Info struct {
 	// Injectors contains all the injector functions in the initial packages.
 	// The order is undefined.
 	Injectors []*Injector
+}
+
+// verifyCalls reports the errors that generation reports for a solved
+// injector: a provider that returns an error or a cleanup function although
+// the injector cannot, or a value that cannot be used from the injector's
+// package. Load applies it so that check and show accept an injector only
+// if gen does.
+func verifyCalls(fset *token.FileSet, pos token.Pos, name, pkgPath string, calls []call, sig outputSignature) []error {
+	ec := new(errorCollector)
+	for i := range calls {
+		c := &calls[i]
+		if c.hasCleanup && !sig.cleanup {
+			ec.add(notePosition(fset.Position(pos),
+				fmt.Errorf("inject %s: provider for %s returns cleanup but injection does not return cleanup function", name, types.TypeString(c.out, nil))))
+		}
+		if c.hasErr && !sig.err {
+			ec.add(notePosition(fset.Position(pos),
+				fmt.Errorf("inject %s: provider for %s returns error but injection not allowed to fail", name, types.TypeString(c.out, nil))))
+		}
+		if c.kind == valueExpr {
+			if err := accessibleFrom(c.valueTypeInfo, c.valueExpr, pkgPath); err != nil {
+				ec.add(notePosition(fset.Position(pos),
+					fmt.Errorf("inject %s: value %s can't be used: %v", name, types.TypeString(c.out, nil), err)))
+			}
+		}
+	}
+	return ec.errors
 }
 
 // A ProviderSetID identifies a named provider set.
